@@ -8,6 +8,7 @@ import (
 	"strings"
 
 	"github.com/go-task/task/v3/internal/execext"
+	"github.com/go-task/task/v3/internal/output"
 	zz "github.com/go-task/task/v3/internal/zzsym"
 	"github.com/go-task/task/v3/taskfile/ast"
 )
@@ -165,6 +166,68 @@ func ZZ_C11_Isolation() {
 	dx, _ := def.Cmds[1].Vars.Get("X")
 	dxs, _ := dx.Value.(string)
 	zz.Assert(dxs == "{{.V}}", "definitions-unchanged/call-vars")
+	if zz.Twin() {
+		zz.Assert(false, "twin")
+	}
+	zz.Reach("end")
+}
+
+// zzRecorder is a shell that records the command lines it is asked to run.
+var zzRecorded []string
+
+func zzRecordShell(ctx context.Context, opts *execext.RunCommandOptions) error {
+	zzRecorded = append(zzRecorded, opts.Command)
+	return nil
+}
+
+type zzLineSink struct{ lines []string }
+
+func (s *zzLineSink) Write(p []byte) (int, error) {
+	s.lines = append(s.lines, strings.TrimSpace(string(p)))
+	return len(p), nil
+}
+
+// ZZ_C11_Deferred: running a task twice in one invocation with different call
+// variables gives each run its own commands, including the deferred command whose
+// text is rendered when it runs.
+func ZZ_C11_Deferred() {
+	zzRun = zzRecordShell
+	zzEnviron = []string{"HOME=/h"}
+	zzRecorded = nil
+	b1, b2 := zz.Str("binding1", 2, "ab"), zz.Str("binding2", 2, "ab")
+	tf := &ast.Taskfile{Vars: ast.NewVars(), Env: ast.NewVars(), Tasks: ast.NewTasks(), Run: "always", Method: "checksum"}
+	work := &ast.Task{Task: "work", Location: &ast.Location{Taskfile: "/d/f.yml"}, Vars: ast.NewVars(), Env: ast.NewVars(),
+		Cmds: []*ast.Cmd{{Cmd: "echo cleanup-{{.NAME}}", Defer: true}, {Cmd: "echo work-{{.NAME}}"}}}
+	tf.Tasks.Set("work", work)
+	sink := &zzLineSink{}
+	e := &Executor{Taskfile: tf, Stdout: sink, Stderr: io.Discard, Stdin: strings.NewReader(""), Silent: true, Output: output.Interleaved{}}
+	e.Logger = zzQuietLogger()
+	e.Compiler = &Compiler{Dir: "", TaskfileEnv: tf.Env, TaskfileVars: tf.Vars, Logger: e.Logger}
+	e.setupConcurrencyState()
+	call := func(v string) *Call {
+		c := &Call{Task: "work", Vars: ast.NewVars()}
+		c.Vars.Set("NAME", ast.Var{Value: v})
+		return c
+	}
+	err1 := e.Run(context.Background(), call(b1))
+	err2 := e.Run(context.Background(), call(b2))
+	zz.Assert(err1 == nil && err2 == nil, "runs-succeed")
+	got := zzRecorded
+	if zz.Native() {
+		got = nil
+		for _, l := range sink.lines {
+			got = append(got, "echo "+l)
+		}
+	}
+	want := []string{"echo work-" + b1, "echo cleanup-" + b1, "echo work-" + b2, "echo cleanup-" + b2}
+	zz.Assert(len(got) == len(want), "same-meaning/number-of-commands")
+	if len(got) == len(want) {
+		for k := range want {
+			zz.Assert(got[k] == want[k], "same-meaning/each-run-has-its-own-commands-and-deferred-commands")
+		}
+	}
+	def, _ := e.Taskfile.Tasks.Get("work")
+	zz.Assert(def.Cmds[0].Cmd == "echo cleanup-{{.NAME}}" && def.Cmds[1].Cmd == "echo work-{{.NAME}}", "definitions-unchanged")
 	if zz.Twin() {
 		zz.Assert(false, "twin")
 	}
